@@ -377,7 +377,7 @@ UNITS.append(dict(name='nrf52_isr', extracts=ISR_EX, code=ISR_CODE, object_bits=
 
 # the consumer: link_layer<>::handle_received_data hands each stored PDU to the upper layers exactly once and in order (contract in lle.py)
 import lle
-UNITS.append(lle.unit(['handle_received_data'], name='consumer', replay=dict(src='replay/c15_consumer_replay.cpp', cxxflags=['-DNDEBUG', '-I/repo/tests/test_tools', '-I/repo/tests/link_layer'],
+UNITS.append(lle.unit(['handle_received_data'], name='consumer', defines=['C15_CLAUSES'], replay=dict(src='replay/c15_consumer_replay.cpp', cxxflags=['-DNDEBUG', '-I/repo/tests/test_tools', '-I/repo/tests/link_layer'],
     repo_sources=['tests/test_tools/test_radio.cpp', 'tests/test_tools/test_servers.cpp', 'tests/test_tools/hexdump.cpp', 'tests/test_tools/buffer_io.cpp', 'tests/test_tools/address_io.cpp',
                   'bluetoe/link_layer/delta_time.cpp', 'bluetoe/link_layer/channel_map.cpp', 'bluetoe/link_layer/connection_details.cpp', 'bluetoe/utility/address.cpp'])))
 
